@@ -101,48 +101,43 @@ def solve_obligation(ob, timeout_ms=20000, want_smt2=False, hints=()):
     t0 = time.time()
     r = s.check()
     proc = None
+    cv_result = None
+    smt2_bg = None
     if r == z3.unknown:
-        # hard: run cvc5 in the background while z3 gets its longer budget
+        # hard: cvc5 and a second z3 (CLI) run as separate processes on the dumped query; no threads in this process
+        # (z3's Python objects are not safe to finalise while another thread is inside the solver)
         smt2_bg = _fresh_smt2(ob)
         proc = start_cvc5(smt2_bg, timeout_ms)
-        s = z3.Solver()
-        s.set('timeout', min(timeout_ms, 8000))
-        for h in ob.hyps:
-            s.add(h)
-        s.add(z3.Not(ob.goal))
-        box = {}
-
-        def run_z3():
-            try:
-                box['r'] = s.check()
-            except Exception:
-                box['r'] = z3.unknown
-        th = threading.Thread(target=run_z3)
-        th.start()
-        cv = None
-        while th.is_alive():
-            th.join(0.05)
-            if proc is not None and proc.poll() is not None and cv is None:
-                cv = wait_cvc5(proc, 1000)
+        zproc = start_z3cli(smt2_bg, min(timeout_ms, 10000))
+        zres = None
+        while True:
+            done_c = proc is None or proc.poll() is not None
+            done_z = zproc is None or zproc.poll() is not None
+            if done_c and proc is not None:
+                cv_result = wait_cvc5(proc, 1000)
                 proc = None
-                if cv[0] == 'unsat':
-                    try:
-                        z3.main_ctx().interrupt()
-                    except Exception:
-                        pass
-        th.join()
-        r = box.get('r', z3.unknown)
-        if cv is not None:
-            if cv[0] == 'unsat' and r != z3.sat:
-                return 'unsat', 'cvc5-1.0.3', time.time() - t0, None, None, smt2_bg
-            if r == z3.unknown:
-                # cvc5 already answered (not unsat): skip straight to the alternative configurations
-                proc = None
-                cv_result = cv
-            else:
-                cv_result = cv
+                if cv_result[0] == 'unsat':
+                    stop_cvc5(zproc)
+                    return 'unsat', 'cvc5-1.0.3', time.time() - t0, None, None, smt2_bg
+            if done_z and zproc is not None:
+                zres = wait_cvc5(zproc, 1000)[0]
+                zproc = None
+                if zres == 'unsat':
+                    stop_cvc5(proc)
+                    return 'unsat', zver + '(cli)', time.time() - t0, None, None, smt2_bg
+            if proc is None and zproc is None:
+                break
+            time.sleep(0.03)
+        if zres == 'sat':
+            # a model is needed for the replay: repeat in-process
+            s = z3.Solver()
+            s.set('timeout', min(timeout_ms, 10000))
+            for h in ob.hyps:
+                s.add(h)
+            s.add(z3.Not(ob.goal))
+            r = s.check()
         else:
-            cv_result = None
+            r = z3.unknown
     dt = time.time() - t0
     if r == z3.unsat:
         stop_cvc5(proc)
@@ -161,12 +156,9 @@ def solve_obligation(ob, timeout_ms=20000, want_smt2=False, hints=()):
                 break
             s.pop()
         return 'sat', zver, dt, model, None, smt2
-    reason = s.reason_unknown()
-    smt2 = smt2_bg
-    if proc is None and cv_result is not None:
-        st, secs = cv_result
-    else:
-        st, secs = wait_cvc5(proc, timeout_ms)
+    reason = 'timeout/incomplete'
+    smt2 = smt2_bg if smt2_bg is not None else _fresh_smt2(ob)
+    st, secs = cv_result if cv_result is not None else ('not-run', 0.0)
 
     dt += secs
     if st == 'unsat':
@@ -188,7 +180,7 @@ def solve_obligation(ob, timeout_ms=20000, want_smt2=False, hints=()):
         if r2 == z3.unsat:
             return 'unsat', zver + '(alt)', dt, None, None, smt2
         if r2 == z3.sat:
-            return 'sat', zver + '(alt)', dt, s2.model(), None, smt2
+            return 'sat', zver + '(alt configuration; candidate only)', dt, s2.model(), None, smt2
     # last resort: drop the quantified hypotheses (sound: proving from fewer hypotheses)
     from .ctx import has_quantifier
     qf = [h for h in ob.hyps if not has_quantifier(h)]
@@ -291,6 +283,21 @@ def start_cvc5(smt2, timeout_ms):
         f.close()
         p = subprocess.Popen(['/usr/bin/cvc5', '--lang=smt2', '--strings-exp', '--tlimit=%d' % timeout_ms, f.name],
                              stdout=subprocess.PIPE, stderr=subprocess.PIPE, text=True)
+        p._path = f.name
+        p._t0 = time.time()
+        return p
+    except Exception:
+        return None
+
+
+def start_z3cli(smt2, timeout_ms):
+    try:
+        f = tempfile.NamedTemporaryFile('w', suffix='.smt2', delete=False)
+        f.write(smt2)
+        f.write('\n(check-sat)\n' if '(check-sat)' not in smt2 else '')
+        f.close()
+        p = subprocess.Popen(['z3-new', '-T:%d' % max(1, timeout_ms // 1000), f.name], stdout=subprocess.PIPE,
+                             stderr=subprocess.PIPE, text=True)
         p._path = f.name
         p._t0 = time.time()
         return p
